@@ -57,6 +57,45 @@ def render(src, renderer='HTML5', overrides=None, jobname='job', before_parse=No
     return Rendered(outdir, doc, files, tex)
 
 
+def render_again(prev_src, prev_overrides, src, renderer='HTML5', overrides=None, jobname='job'):
+    """The way the command-line program works on an edited document: an earlier edition (prev_src, possibly under other
+    settings) was compiled in the working directory and left <jobname>.paux behind; now src is compiled there by
+    plasTeX.Compile.parse and rendered into a fresh output directory.  -> Rendered for the second run."""
+    import plasTeX
+    from plasTeX import Compile
+    base = os.environ.get('PVMON_TMP') or tempfile.gettempdir()
+    work = tempfile.mkdtemp(prefix='case-', dir=base)
+    cwd = os.getcwd()
+    try:
+        os.chdir(work)
+        for k, (text, ov) in enumerate(((prev_src, prev_overrides), (src, overrides))):
+            with open(jobname + '.tex', 'w', encoding='utf-8') as f:
+                f.write(text)
+            config = new_config(ov)
+            config['general']['renderer'] = renderer
+            config['files']['log'] = False
+            tex = Compile.parse(jobname + '.tex', config)
+            doc = tex.ownerDocument
+            outdir = os.path.join(work, 'out%d' % k)
+            os.makedirs(outdir)
+            os.chdir(outdir)
+            try:
+                r = Compile.load_renderer(renderer, config)
+                r.render(doc)
+                files = dict(r.files)
+            finally:
+                os.chdir(work)
+            if k == 0:
+                from .. import common
+                common.plastex_reset()
+    finally:
+        os.chdir(cwd)
+    out = Rendered(outdir, doc, files, tex)
+    out.workdir = work
+    out.cleanup = lambda: shutil.rmtree(work, ignore_errors=True)
+    return out
+
+
 VOID = set('area base br col embed hr img input link meta param source track wbr'.split())
 
 
